@@ -4,13 +4,22 @@ ENGINES = [
     dict(name="rigverif", path="/verif/rigverif",
          serves_properties=["C%02d" % i for i in range(1, 21)],
          kind_free_text="custom static analysers over CPython ast: program "
-                        "loader + anchors, statement CFG with assume nodes and "
-                        "dominators, reaching definitions + symbolic "
-                        "polynomial values, relational abstract interpreter "
-                        "(linear constraints, weak join, own Fourier-Motzkin), "
-                        "constant folding of module data, bit-layout "
-                        "provenance, order-type evaluation, effect/mutation "
-                        "analysis, role (dimension) inference"),
+                        "loader + anchors (helpers added since the reference "
+                        "tree are read as nested functions of their callers), "
+                        "statement CFG with assume nodes and dominators, "
+                        "reaching definitions + symbolic polynomial values, "
+                        "canonical value terms (TERMS: temporaries, renames, "
+                        "unpacking, equivalent spellings, nested helpers and "
+                        "hypotheses resolved; facts by cases; idioms such as "
+                        "dictionary layering, filtered scans, chunking), "
+                        "path-sensitive state exploration with helper "
+                        "summaries (PATHS), relational abstract interpreter "
+                        "(linear constraints, weak join, own "
+                        "Fourier-Motzkin), constant folding of module data, "
+                        "bit-layout provenance, order-type evaluation, "
+                        "effect/mutation analysis, role (dimension) "
+                        "inference. A rule that cannot read a construct has "
+                        "no verdict (UNDECIDED) instead of raising an alarm"),
 ]
 
 NOT_APPLICABLE = {}
@@ -444,3 +453,62 @@ CHECKS = {
              "tables with upstream default routing. This check decides "
              "necessary conditions only."),
 }
+
+
+# what the rewrites on value terms / path exploration added to each check's
+# deciding method (appended to the technique strings above)
+_ADDED = {
+    "C01": "canonical value terms for the per-net core range and the "
+           "default-route predicates",
+    "C02": "canonical value terms by cases for the capacity test, the C "
+           "kernel's inputs and the fixed-vertex merge",
+    "C03": "canonical value terms and facts (through helpers) for A*, the "
+           "disconnecting copy, leaf routes and tree-node look-ups",
+    "C04": "canonical value terms: list-building abstraction of "
+           "_Merge.apply (cursor / append / segment forms), refine order by "
+           "cases, per-round rescan, unit propagation over path facts",
+    "C05": "roles read off the allocator's data flow as value terms; "
+           "path-sensitive state exploration (PATHS) of the retry loop with "
+           "helper summaries: on every path to the commit the proposal was "
+           "scanned completely against both reservation sources with no "
+           "overlap and bounded by the chip's own capacity",
+    "C06": "canonical value terms with nested-helper views for the burst's "
+           "table, queue, keys and deadlines",
+    "C07": "canonical value terms for block sizes, addresses and the link "
+           "windows",
+    "C08": "canonical value terms by cases (fixed / floating position), "
+           "path-sensitive exploration (PATHS) of the children scans, "
+           "allocation-site analysis of the per-child requirement dict",
+    "C09": "canonical value terms for the wait flag, writers and the "
+           "verification walk",
+    "C10": "canonical value terms for table records, arrival directions and "
+           "the loader's words",
+    "C11": "walk evaluated by cases on value terms (recorded position per "
+           "dimension, sign and wrap case)",
+    "C12": "canonical value terms per hierarchy level; unguarded insertion "
+           "of every target",
+    "C13": "proofs on the two halves of the input space (position inside / "
+           "before the view)",
+    "C14": "canonical value terms for decoders, derived sets, range merging "
+           "by cases, running maxima, version text",
+    "C15": "canonical value terms by cases (8 argument-presence cases) with "
+           "literal-loop unrolling and list/join part extraction",
+    "C16": "canonical value terms for the clamp and the array pipeline "
+           "(clip or minimum/maximum forms)",
+    "C17": "value-class query methods checked for instance writes",
+    "C18": "dictionary layering (ordered overlay of defaults / context / "
+           "explicit arguments whatever the spelling), context ownership of "
+           "its arguments, probe-over-new-connection ordering",
+    "C19": "canonical value terms for the factor search and the Ethernet "
+           "coordinates",
+    "C20": "canonical value terms for option application, size limit, "
+           "splice and byte swap (word-wise or bulk)",
+}
+for _k, _v in _ADDED.items():
+    if _k in CHECKS and _v not in CHECKS[_k]["technique"]:
+        CHECKS[_k]["technique"] += "; " + _v
+    if _k in CHECKS and "UNDECIDED" not in CHECKS[_k].get("note", ""):
+        CHECKS[_k]["note"] = (CHECKS[_k].get("note", "") + " A rule that "
+                              "meets a construct it cannot read prints "
+                              "UNDECIDED (no verdict from that rule, exit "
+                              "code unaffected) instead of a violation.")
